@@ -1,5 +1,6 @@
 SPECIFICATION Spec
 CONSTANTS
+  PlanRows <- AllRows
   MaxH = 400
   MaxBlocks = 5
   Maxes <- MCMaxes
